@@ -59,11 +59,20 @@ def mk_ep(name, role, nw, rng, alloc, array=None, nranges=1, style=None, gap=Non
             if array is not None:
                 base = alloc.take(size * num, g)
                 r = {"base": base, "size": size}
+                # an `idx` written next to base/size of an ARRAY is legal and overwritten per element (element k owns
+                # slot k whatever the description says)
+                if rng.random() < 0.2:
+                    r["idx"] = rng.choice([1, 2, 5])
             else:
                 st = rng.choice(["bs", "se", "ss"]) if style is None else style
                 base = alloc.take(size, g)
                 r = {"bs": {"base": base, "size": size}, "se": {"start": base, "end": base + size},
                      "ss": {"start": base, "size": size}}[st]
+                # a single endpoint written as slot k of a base/size grid: the range is base + k*size
+                if st == "bs" and rng.random() < 0.3:
+                    k = rng.choice([1, 2, 3])
+                    if base >= k * size:
+                        r = {"base": base - k * size, "size": size, "idx": k}
             if desc_tag and nranges > 1 and rng.random() < 0.5:
                 r["desc"] = f"w{j}"
             rs.append(r)
@@ -265,9 +274,10 @@ def tree(rng, levels=(1, 2), algo="ID", nw=False, leaves_per_router=1, root_eps=
 
 
 # ---------------------------------------------------------------------------------------------- custom
-def custom(rng, nr=3, algo="ID", nw=False, extra_edges=0, eps_per=1, degrees=None, shuffle=True):
+def custom(rng, nr=3, algo="ID", nw=False, extra_edges=0, eps_per=1, degrees=None, shuffle=True, carriers=None):
     """nr single routers joined into a random connected graph by explicit router-router connections,
-    endpoints attached to random routers; optionally shuffled declaration orders."""
+    endpoints attached to random routers; optionally shuffled declaration orders.  `carriers`: the routers that carry
+    endpoints (default all); the others are transit-only."""
     d = header("custom", nw, algo)
     alloc = Alloc(rng)
     rts = [f"rt{chr(97 + i)}" for i in range(nr)]
@@ -281,7 +291,10 @@ def custom(rng, nr=3, algo="ID", nw=False, extra_edges=0, eps_per=1, degrees=Non
     eps, conns = [], []
     q = 0
     roles = []
+    carriers = set(range(nr)) if carriers is None else set(carriers)
     for i in range(nr):
+        if i not in carriers:
+            continue
         for _ in range(eps_per if i else max(1, eps_per)):
             roles.append(rng.choice(["m", "s", "ms", "ms"]))
     roles = ensure_roles(roles, rng)
@@ -289,6 +302,8 @@ def custom(rng, nr=3, algo="ID", nw=False, extra_edges=0, eps_per=1, degrees=Non
         roles[0] = "ms"
     ri = 0
     for i in range(nr):
+        if i not in carriers:
+            continue
         for _ in range(eps_per if i else max(1, eps_per)):
             nm = f"ep{q}"
             eps.append(mk_ep(nm, roles[ri], nw, rng, alloc))
@@ -344,7 +359,9 @@ def routing_suite(tier, seed, algos=("ID", "SRC", "XY"), want=None):
         # trees
         for levels in ([(1, 2), (1, 3), (2, 2), (1, 2, 2)] if q else
                        [lv for dpt in (1, 2, 3) for lv in itertools.product((1, 2, 3), repeat=dpt)]):
-            for lp in (1, 2):
+            # leaves per router 4 and 8 give leaf routers a wider port-select field than the routers above them (a
+            # route word whose fields are sized per network instead of per router shows there)
+            for lp in ((1, 2, 4, 8) if len(levels) == 2 and levels[0] == 1 else (1, 2) if q else (1, 2, 4)):
                 out.append(tree(rng, levels, algo, rng.random() < 0.3, leaves_per_router=lp,
                                 root_eps=rng.randint(0, 2), roles=rng.choice([["ms"], ["ms", "s", "m"], ["s", "m", "ms"]])))
         # custom graphs
@@ -372,6 +389,12 @@ def routing_suite(tier, seed, algos=("ID", "SRC", "XY"), want=None):
             sides = rng.choice(side_sets[:6])
             out.append(mesh(rng, m, n, algo, rng.random() < 0.3, sides=sides, partial=part,
                             cluster_role=rng.choice(["ms", "m", "s"]), side_role=rng.choice(["s", "ms"])))
+        # routers of degree 4: no local port at all, every endpoint on a boundary port (port-count parameters and
+        # select widths below the five compass ports)
+        for (m, n, sides) in ([(2, 2, ("W", "E")), (2, 1, ("S", "N"))] if q else
+                              [(2, 2, ("W", "E")), (2, 1, ("S", "N")), (3, 2, ("W", "E", "S")), (1, 2, ("W", "E"))]):
+            out.append(mesh(rng, m, n, algo, rng.random() < 0.3, sides=sides, partial=[], degree=4,
+                            side_role={"W": "ms", "E": "s", "S": "ms", "N": "ms"}))
     return [(d, t) for d, t in out if d is not None]
 
 
@@ -596,6 +619,32 @@ def detour_suite(tier, seed):
                         d["connections"].append({"src": "router", "dst": "router", "src_idx": [x, 0], "dst_idx": [x, n - 1],
                                                  "src_dir": "South", "dst_dir": "North"})
                     out.append((d, {"topo": "torus-y", "m": m, "n": n}))
+    # two endpoints joined by a lattice of transit-only routers with a cross link: cpu - r3 - {r0, r1} - r2 - mem, r0 - r1,
+    # and a spare router r4 behind r1 / r2; declaration orders as written and shuffled
+    for algo in ("ID", "SRC"):
+        for k in range(6 if tier == "quick" else 40):
+            nw = k % 3 == 2
+            d = header("lattice", nw, algo)
+            alloc = Alloc(rng)
+            eps = [mk_ep("cpu", "ms", nw, rng, alloc), mk_ep("mem", "ms", nw, rng, alloc)]
+            rts = [{"name": f"r{i}"} for i in range(5)]
+            conns = [{"src": "cpu", "dst": "r3"}, {"src": "mem", "dst": "r2"}, {"src": "r2", "dst": "r4"},
+                     {"src": "r0", "dst": "r3"}, {"src": "r1", "dst": "r2"}, {"src": "r1", "dst": "r3"},
+                     {"src": "r1", "dst": "r4"}, {"src": "r0", "dst": "r1"}, {"src": "r0", "dst": "r2"}]
+            if k:
+                rng.shuffle(rts)
+                rng.shuffle(conns)
+                conns = [c if rng.random() < 0.5 else {"src": c["dst"], "dst": c["src"]} for c in conns]
+            d["endpoints"], d["routers"], d["connections"] = eps, rts, conns
+            out.append((d, {"topo": "lattice", "order": k}))
+    # custom graphs with transit-only routers and several equally short ways round: the tables of the routers that
+    # carry no endpoint matter exactly when the tie between the ways is broken differently from different starts
+    for algo in ("ID", "SRC"):
+        for _ in range(40 if tier == "quick" else 400):
+            nr = rng.randint(4, 7)
+            k = rng.randint(2, 3)
+            out.append(custom(rng, nr, algo, rng.random() < 0.3, extra_edges=rng.randint(2, 5), eps_per=1,
+                              carriers=rng.sample(range(nr), k)))
     return out
 
 
